@@ -160,6 +160,11 @@ func (c01) Gen(r *simrt.Rand, idx int, tier string) *Case {
 		g.Prices = "tree"
 		g.MaxCom = 4
 	}
+	if idx%60 == 13 {
+		// a day with hundreds of bookings, several schedules
+		g.MinTxn, g.MaxTxn, g.BusyDay = 350, 600, true
+		g.PAccrual, g.PAssert = 0, 0.02
+	}
 	c.J = Gen(r, g)
 	c.L = RandLayout(r, c.J, 4)
 	c.Today = (anchors[r.Intn(len(anchors))] + Day(r.Range(0, 1200))).String()
@@ -171,6 +176,9 @@ func (c01) Gen(r *simrt.Rand, idx int, tier string) *Case {
 	}
 	c.Args = f.Args()
 	c.Scheds = []Sched{RandSched(r)}
+	if g.BusyDay {
+		c.Scheds = append(c.Scheds, RandSched(r), RandSched(r), RandSched(r))
+	}
 	return c
 }
 
